@@ -294,6 +294,12 @@ static ASMJIT_INLINE bool is_implicit_mem(const Operand_& op, uint32_t base) noe
   return op.is_mem() && op.as<Mem>().base_id() == base && !op.as<Mem>().has_offset();
 }
 
+//! Tests whether the ES:[zdi] operand of a string instruction has no segment override or names ES (it cannot be overridden).
+static ASMJIT_INLINE bool is_es_or_default_segment(const Operand_& op) noexcept {
+  uint32_t segment_id = op.as<Mem>().segment_id();
+  return segment_id == 0 || segment_id == SReg::kIdEs;
+}
+
 //! Combine `reg_id` and `vvvvv_id` into a single value (used by AVX and AVX-512).
 static ASMJIT_INLINE uint32_t pack_reg_and_vvvvv(uint32_t reg_id, uint32_t vvvvv_id) noexcept {
   return reg_id + (vvvvv_id << kVexVVVVVShift);
@@ -1429,7 +1435,7 @@ CaseX86M_GPB_MulDiv:
 
     case InstDB::kEncodingX86Ins:
       if (isign3 == ENC_OPS2(Mem, Reg)) {
-        if (ASMJIT_UNLIKELY(!is_implicit_mem(o0, Gp::kIdDi) || o1.id() != Gp::kIdDx))
+        if (ASMJIT_UNLIKELY(!is_implicit_mem(o0, Gp::kIdDi) || !is_es_or_default_segment(o0) || o1.id() != Gp::kIdDx))
           goto InvalidInstruction;
 
         uint32_t size = o0.x86_rm_size();
@@ -2160,6 +2166,10 @@ CaseX86PushPop_Gp:
         if (ASMJIT_UNLIKELY(rm_rel->as<Mem>().offset_lo32() || !o0.as<Reg>().is_gp(Gp::kIdAx)))
           goto InvalidInstruction;
 
+        // SCAS reads ES:[zdi], which cannot be overridden (LODS reads DS:[zsi], which can).
+        if (ASMJIT_UNLIKELY(inst_id == Inst::kIdScas && !is_es_or_default_segment(o1)))
+          goto InvalidInstruction;
+
         uint32_t size = o0.x86_rm_size();
         if (o1.x86_rm_size() != 0u && ASMJIT_UNLIKELY(o1.x86_rm_size() != size))
           goto OperandSizeMismatch;
@@ -2172,7 +2182,7 @@ CaseX86PushPop_Gp:
     case InstDB::kEncodingX86StrMr:
       if (isign3 == ENC_OPS2(Mem, Reg)) {
         rm_rel = &o0;
-        if (ASMJIT_UNLIKELY(rm_rel->as<Mem>().offset_lo32() || !o1.is_gp(Gp::kIdAx)))
+        if (ASMJIT_UNLIKELY(rm_rel->as<Mem>().offset_lo32() || !o1.is_gp(Gp::kIdAx) || !is_es_or_default_segment(o0)))
           goto InvalidInstruction;
 
         uint32_t size = o1.x86_rm_size();
@@ -2193,6 +2203,10 @@ CaseX86PushPop_Gp:
         // The operand that can take a segment override (DS:[zsi]) is the second one of MOVS, but the first one of CMPS.
         rm_rel = inst_id == Inst::kIdCmps ? &o0 : &o1;
         if (ASMJIT_UNLIKELY(o0.as<Mem>().has_offset() || o1.as<Mem>().has_offset()))
+          goto InvalidInstruction;
+
+        // The other operand is ES:[zdi], which cannot be overridden.
+        if (ASMJIT_UNLIKELY(!is_es_or_default_segment(inst_id == Inst::kIdCmps ? o1 : o0)))
           goto InvalidInstruction;
 
         uint32_t size = o1.x86_rm_size();
